@@ -83,6 +83,13 @@ def correspondence(ck, scripts, what, oracle=True, extra_oracle=None):
             found = (name, small, o2[0] if o2 else obad[0])
     if found is None and extra_oracle:
         found = extra_oracle(bad, by_name, impl_out)
+        if found and len(found) == 3 and isinstance(found[2], dict):
+            name, small, payload = found
+            payload.setdefault("property", ck.prop)
+            payload.setdefault("script", small)
+            payload.setdefault("seed", ck.seed)
+            ck.violation(verif.write_replay(ck.prop, name, payload), True)
+            return impl_out, model_out, len(bad)
     if found:
         name, small, detail = found
         path = verif.write_replay(ck.prop, name, {
@@ -545,3 +552,745 @@ def check_C18(ck):
 
 
 check_C18.needs_hdyn = True
+
+
+# ----------------------------------------------------------------------------------------------------
+# C05 type-id hash
+
+ID_FAMILIES = ["pointer", "stride", "small", "random64", "highbits", "lowbits"]
+
+
+def parse_hash(lines):
+    """(mult, shift, length, control or None, vptr entries {index: offset}) of the last dump"""
+    h = ctl = vp = None
+    size = None
+    for l in lines:
+        m = re.match(r"hash mult=(\d+) shift=(\d+) length=(\d+) min=(\d+) max=(\d+)", l)
+        if m:
+            h = tuple(int(x) for x in m.groups())
+        if l.startswith("control ["):
+            ctl = [int(x) for x in l[9:-1].split(",") if x]
+        m = re.match(r"vptrs size=(\d+) \[(.*)\]", l)
+        if m:
+            size = int(m.group(1))
+            vp = {int(e.split(":")[0]): int(e.split(":")[1]) for e in m.group(2).split(",") if e}
+    return h, ctl, size, vp
+
+
+def check_C05(ck):
+    rng = random.Random(repr((ck.seed, "C05")))
+    scripts = load_corpus("C05")
+    meta = {}
+    n = tier_n(ck, 350, 6000)
+    maxsize = tier_n(ck, 300, 2000)
+    for i in range(n):
+        pol = rng.choice(["fast", "checked", "checked", "indirect", "backward"])
+        fam = rng.choice(ID_FAMILIES)
+        r = rng.random()
+        replace_all = rng.random() < 0.25      # unload everything, load a disjoint small set
+        size = rng.randint(1, 4) if replace_all else 0 if r < 0.03 else rng.randint(1, 12) if r < 0.5 else rng.randint(13, 80) if r < 0.9 else rng.randint(81, maxsize)
+        pool = [x[0] for x in gen.make_ids(rng, size + 40, pol, fam)]
+        live = {}
+        ever = []
+        lines = ["policy " + pol]
+        handle = 0
+        history = []
+        rounds = rng.randint(1, 4)
+        exhausted = False
+        for rd in range(rounds):
+            # grow / shrink
+            if rd == 0:
+                add = pool[:size]
+            elif replace_all:
+                for h in sorted(live):
+                    lines.append("unclass %d" % h)
+                live = {}
+                unused = [x for x in pool if x not in ever]
+                add = rng.sample(unused, min(len(unused), rng.randint(1, 4)))
+            else:
+                k = rng.randint(0, max(1, len(live)))
+                for h in rng.sample(sorted(live), min(k, len(live))):
+                    lines.append("unclass %d" % h)
+                    del live[h]
+                unused = [x for x in pool if x not in live.values()]
+                add = rng.sample(unused, min(len(unused), rng.randint(0, 12)))
+            for cid in add:
+                handle += 1
+                live[handle] = cid
+                ever.append(cid)
+                lines.append("class %d %d 0 %d" % (handle, cid, cid))
+            if rng.random() < 0.25:
+                b = rng.choice([0, 1, 2, 3, 5])
+                lines.append("budget %d" % b)
+            elif rd > 0:
+                lines.append("budget 100000")
+            lines.append("update")
+            lines.append("dump")
+            regs = sorted(set(live.values()))
+            for cid in rng.sample(regs, min(len(regs), 6)):
+                lines.append("echo L%d:1" % cid)
+                lines.append("lookup %d" % cid)
+            if pol == "checked":
+                gone = [x for x in pool if x not in live.values()]
+                was = [x for x in ever if x not in live.values()]
+                cands = was[-8:] + [rng.choice([rng.getrandbits(64), rng.choice(gone) if gone else 1, rng.randrange(1, 1 << 20), 0]) for _ in range(3)]
+                for x in cands:
+                    if x not in live.values() and x != 2 ** 64 - 1:
+                        lines.append("echo L%d:0" % x)
+                        lines.append("lookup %d" % x)
+            history.append(regs)
+        name = "h%d-%s-%s-%d" % (i, pol, fam, size)
+        scripts.append((name, lines))
+        meta[name] = (pol, fam, size, history)
+    # small-set replacement battery: unload everything, load a disjoint set of about the same size
+    # (the hash search then tends to succeed at its first attempt, with the previous tables around)
+    for i in range(tier_n(ck, 160, 3000)):
+        fam = ID_FAMILIES[i % len(ID_FAMILIES)]
+        a, b = rng.choice([(1, 1), (2, 2), (3, 3), (2, 3), (3, 2), (4, 4), (5, 6), (1, 2)])
+        pool = [x[0] for x in gen.make_ids(rng, a + b + 2, "checked", fam)]
+        s1, s2 = pool[:a], pool[a:a + b]
+        lines = ["policy checked"]
+        for h, cid in enumerate(s1):
+            lines.append("class %d %d 0 %d" % (h + 1, cid, cid))
+        lines += ["update", "dump"]
+        for h in range(len(s1)):
+            lines.append("unclass %d" % (h + 1))
+        for h, cid in enumerate(s2):
+            lines.append("class %d %d 0 %d" % (100 + h, cid, cid))
+        lines += ["update", "dump"]
+        for cid in s2:
+            lines += ["echo L%d:1" % cid, "lookup %d" % cid]
+        for cid in s1:
+            lines += ["echo L%d:0" % cid, "lookup %d" % cid]
+        name = "r%d-checked-%s-%d-%d" % (i, fam, a, b)
+        scripts.append((name, lines))
+        meta[name] = ("checked", fam, a, [sorted(s1), sorted(s2)])
+    stats5 = {"installs": 0, "failures": 0, "unknown_rejected": 0, "sizes": {}}
+
+    def evaluate(impl_out, report):
+        """the statement of C05 evaluated on the implementation's own values; returns first failing (name, lines, payload)"""
+        first = None
+        for name, lines in scripts:
+            out = impl_out.get(name, [])
+            if name not in meta:
+                continue
+            pol, fam, size, history = meta[name]
+            if report:
+                b_ = str(min(size, 1000) // 50 * 50)
+                stats5["sizes"][b_] = stats5["sizes"].get(b_, 0) + 1
+                stats5["failures"] += sum(1 for l in out if l.startswith("update raised hash_search"))
+                stats5["unknown_rejected"] += sum(1 for l in out if l.startswith("raised unknown_class"))
+            for k, l in enumerate(out):
+                m = re.match(r"@L(\d+):([01])", l)
+                if m and k + 1 < len(out):
+                    res = out[k + 1]
+                    if res.startswith("skipped"):
+                        continue
+                    ok = res.startswith("vptr ") if m.group(2) == "1" else res == "raised unknown_class " + m.group(1)
+                    if not ok and first is None:
+                        first = (name, lines, {"kind": "failing input: " + (
+                            "a registered id is not resolved" if m.group(2) == "1" else "the checked hash accepted an id that is not registered"),
+                            "lookup": int(m.group(1)), "implementation": res})
+            chunks, cur = [], None
+            for l in out:
+                if l.startswith("update"):
+                    cur = [l]
+                    chunks.append(cur)
+                elif cur is not None:
+                    cur.append(l)
+            for regs, chunk_ in zip(history, chunks):
+                if chunk_[0] != "update ok":
+                    continue
+                h, ctl, vsize, vp = parse_hash(chunk_)
+                if not h:
+                    continue
+                if report:
+                    stats5["installs"] += 1
+                mult, shift, length, mn, mx = h
+                idx = {cid: ((mult * cid) & (2 ** 64 - 1)) >> shift for cid in regs}
+                probs = []
+                if len(set(idx.values())) != len(idx):
+                    probs.append("two registered ids share an index")
+                if any(v >= length for v in idx.values()) or (vsize is not None and vsize != length):
+                    probs.append("index outside the v-table pointer vector")
+                if ctl is not None and any(ctl[v] != cid for cid, v in idx.items() if v < len(ctl)):
+                    probs.append("control table does not hold the id at its index")
+                if vp is not None and any(v not in vp for v in idx.values()):
+                    probs.append("no v-table pointer stored at a registered id's index")
+                if probs and first is None:
+                    first = (name, lines, {"kind": "failing input: installed hash is not perfect on the registered ids", "problems": probs, "hash": h})
+        return first
+
+    impl_out, model_out, nbad = correspondence(ck, scripts, "C05: hash multiplier, shift, length, min/max, control table, v-table pointer vector, lookups",
+                                               oracle=False, extra_oracle=lambda bad, by_name, io: evaluate(io, False))
+    first = evaluate(impl_out, True)
+    if first and not ck.violations:
+        name, lines, payload = first
+        payload.update(property="C05", script=lines, seed=ck.seed)
+        ck.violation(verif.write_replay("C05", name, payload), True)
+    installs, failures, unknown_rejected, sizes = stats5["installs"], stats5["failures"], stats5["unknown_rejected"], stats5["sizes"]
+    ck.coverage = proof_coverage(ck, ["C05"], {
+        "evaluations": len(scripts),
+        "distinct_nontrivial": len({repr(meta[n_][3]) for n_ in meta if len(meta[n_][3][0]) >= 2}),
+        "rule": "id sets by family (clustered pointers, strides, small integers, random 64-bit, high-bits-only, low-bits-only), sizes 0..%d, 1-4 updates "
+                "with classes removed and added in between, attempt budget lowered on a quarter of the updates; after each update the hash statics, "
+                "control table and v-table pointer vector are compared with the model, registered ids are looked up, unregistered ids are looked up "
+                "under the checked policy; non-trivial = distinct history whose first set has >= 2 ids" % maxsize,
+        "hash_installs_checked_perfect": installs,
+        "search_failures_reported": failures,
+        "unknown_ids_rejected": unknown_rejected,
+        "size_histogram": sizes,
+        "traces_validated_against_impl": len(scripts),
+        "samples": [{"name": n_, "script": ls[:25]} for n_, ls in scripts[:2]],
+    })
+    ck.assumptions = ["the multiplier stream drawn by the implementation is an input of the model (theorems quantify over every stream)",
+                      "type id 2^64-1 (yomm2::invalid_type) is reserved by the library and excluded"]
+
+
+# ----------------------------------------------------------------------------------------------------
+# C15 checked policies, C09 virtual_ptr, C07 histories, C10 flavours, C14 isolation
+
+CHECKED = ["checked", "proj", "deferred", "checkedB"]
+P_SHAPES = ["P", "PV", "VPNV", "PP"]
+
+
+def registry_lines(rng, reg, pol, ids, style="complete", shuffle=True):
+    lines, _ = gen.emit_script(rng, reg, pol, style=style, ids=ids, shuffle=shuffle, dump=False, callnext=False, calls="none", max_calls=0)
+    return [l for l in lines if l.split()[0] in ("class", "method", "def")]
+
+
+def check_C15(ck):
+    rng = random.Random(repr((ck.seed, "C15")))
+    scripts, expect = load_corpus("C15"), {}
+    n = tier_n(ck, 300, 5000)
+    kinds = {}
+    for i in range(n):
+        pol = rng.choice(["checked", "checked", "deferred", "checkedB"])
+        reg = gen.gen_registry(rng, n_classes=rng.randint(3, 8), shapes=["V", "P", "VV", "PV", "VNV", "VPNV", "PP", "VVV"])
+        if not reg.methods:
+            continue
+        n_c = len(reg.parents)
+        ids = gen.make_ids(rng, n_c + 1, pol)
+        ghost = ids[n_c][0]          # an id that is never registered
+        kind = rng.choice(["base", "method", "def", "call", "call", "vnew", "exact", "final"])
+        body = registry_lines(rng, reg, pol, ids[:n_c])
+        lines = ["policy " + pol]
+        exp = []   # (marker, expected line)
+        desc = gen.descendants(reg.parents)
+        if kind == "base":
+            k = rng.randrange(len(body))
+            cl = [j for j, l in enumerate(body) if l.startswith("class")]
+            j = rng.choice(cl)
+            body[j] = body[j] + " %d" % ghost
+            lines += body + ["echo U", "update"]
+            exp.append(("U", "update raised unknown_class %d" % ghost))
+        elif kind in ("method", "def"):
+            cand = [j for j, l in enumerate(body) if l.startswith(kind)]
+            if not cand:
+                continue
+            j = rng.choice(cand)
+            t = body[j].split()
+            first_arg = 3
+            pos = rng.randrange(first_arg, len(t))
+            t[pos] = str(ghost)
+            body[j] = " ".join(t)
+            lines += body + ["echo U", "update"]
+            exp.append(("U", "update raised unknown_class %d" % ghost))
+        else:
+            m = rng.choice(reg.methods)
+            static = None
+            if kind in ("exact", "final"):
+                static = ghost if kind == "exact" else ids[rng.choice(desc[m["vp"][0]])][0]
+                lines.append("static %d" % static)
+            lines += body + ["update"]
+            ar = gen.arity(m["shape"])
+            if kind == "call":
+                for pos in range(ar):
+                    args = [ids[rng.choice(desc[v])][0] for v in m["vp"]]
+                    args[pos] = ghost
+                    tag = "C%d" % pos
+                    lines += ["echo " + tag, "call %d %s" % (m["key"], " ".join(map(str, args)))]
+                    # the first unregistered virtual argument in order is reported
+                    exp.append((tag, "raised unknown_class %d" % ghost))
+            elif kind == "vnew":
+                lines += ["echo N", "vnew v %d" % ghost]
+                exp.append(("N", "raised unknown_class %d" % ghost))
+            elif kind == "exact":
+                lines += ["echo X", "vnew v %d" % ghost]
+                exp.append(("X", "raised unknown_class %d" % ghost))
+            else:
+                other = [ids[c][0] for c in range(n_c) if ids[c][0] != static]
+                for k_, o in enumerate(other[:3]):
+                    lines += ["echo F%d" % k_, "vfinal v %d" % o]
+                    exp.append(("F%d" % k_, "raised method_table %d" % o))
+                lines += ["echo G", "vfinal w %d" % static]
+                exp.append(("G", "vptr ok"))
+        kinds[kind] = kinds.get(kind, 0) + 1
+        name = "u%d-%s-%s" % (i, pol, kind)
+        scripts.append((name, lines))
+        expect[name] = exp
+
+    def c15_oracle(bad, by_name, impl_out):
+        for name, lines in scripts:
+            if name not in expect:
+                continue
+            out = verif.visible(impl_out.get(name, []))
+            ran_before = False
+            for tag, want in expect[name]:
+                got = None
+                for k, l in enumerate(out):
+                    if l == "@" + tag:
+                        got = out[k + 1] if k + 1 < len(out) else "<crash>"
+                if got != want:
+                    return (name, lines, {"kind": "failing input: use of an unregistered class is not diagnosed as specified",
+                                          "expected": want, "implementation": got})
+        return None
+    impl_out, model_out, nbad = correspondence(ck, scripts, "C15: unknown-class and method-table errors on every route", oracle=False, extra_oracle=c15_oracle)
+    f = c15_oracle(None, None, impl_out)
+    if f and not ck.violations:
+        f[2].update(property="C15", script=f[1])
+        ck.violation(verif.write_replay("C15", f[0], f[2]), True)
+    ck.coverage = proof_coverage(ck, ["C15"], {
+        "evaluations": len(scripts), "distinct_nontrivial": len({repr(l) for _, l in scripts}),
+        "rule": "registries under checked policies with one id never registered, used at one place: listed base / method parameter / definition "
+                "parameter (update must raise unknown_class with that id), dynamic class of each virtual argument in turn, virtual_ptr from a base "
+                "reference, virtual_ptr of exact static type, final with another dynamic type (method_table error); every script is non-trivial "
+                "(it contains at least one use of the unregistered id)",
+        "by_place": kinds, "traces_validated_against_impl": len(scripts),
+        "samples": [{"name": n_, "script": ls} for n_, ls in scripts[:2]],
+    })
+    ck.assumptions = ["virtual_ptr of exact static type is exercised on the universal object type of H-dyn, whose static id is set by the script",
+                      "id 2^64-1 is reserved"]
+
+
+def check_C09(ck):
+    rng = random.Random(repr((ck.seed, "C09")))
+    scripts, pairs = load_corpus("C09"), {}
+    n = tier_n(ck, 300, 5000)
+    routes = {}
+    for i in range(n):
+        pol = rng.choice(["fast", "checked", "plain", "map", "indirect", "indirect", "proj", "backward"])
+        reg = gen.gen_registry(rng, n_classes=rng.randint(2, 8), shapes=P_SHAPES, n_methods=rng.randint(1, 3))
+        if not reg.methods:
+            continue
+        n_c = len(reg.parents)
+        ids = gen.make_ids(rng, n_c, pol)
+        desc = gen.descendants(reg.parents)
+        static_c = rng.randrange(n_c)
+        lines = ["policy " + pol, "static %d" % ids[static_c][0]]
+        lines += registry_lines(rng, reg, pol, ids, style=rng.choice(gen.STYLES))
+        lines += ["update"]
+        nvar = 0
+        ps = []
+
+        def make_var(c):
+            nonlocal nvar
+            nvar += 1
+            v = "v%d" % nvar
+            cid = ids[c][0]
+            if c == static_c and rng.random() < 0.5:
+                route = "final"
+                lines.append("vfinal %s %d" % (v, cid))
+            else:
+                route = "exact" if c == static_c else "base-ref"
+                lines.append("vnew %s %d" % (v, cid))
+            r2 = rng.random()
+            if r2 < 0.25:
+                nvar += 1
+                w = "v%d" % nvar
+                lines.append("vcopy %s %s" % (w, v))
+                v, route = w, route + "+copy"
+            elif r2 < 0.4:
+                nvar += 1
+                w = "v%d" % nvar
+                lines.append("vmove %s %s" % (w, v))
+                v, route = w, route + "+move"
+            routes[route] = routes.get(route, 0) + 1
+            return v
+
+        def sweep(tag, keep=None):
+            made = keep or {}
+            for m in reg.methods:
+                for _ in range(4):
+                    t = [rng.choice(desc[v]) for v in m["vp"]]
+                    kinds = [k for k in m["shape"] if k != "N"]
+                    plain, viav = [], []
+                    for k, c in zip(kinds, t):
+                        plain.append(str(ids[c][0]))
+                        if k == "P":
+                            if c not in made:
+                                made[c] = make_var(c)
+                            viav.append("$" + made[c])
+                        else:
+                            viav.append(str(ids[c][0]))
+                    a, b = "%s-%d" % (tag, len(ps)), None
+                    lines.append("echo A" + a)
+                    lines.append("call %d %s" % (m["key"], " ".join(plain)))
+                    lines.append("echo B" + a)
+                    lines.append("vcall %d %s" % (m["key"], " ".join(viav)))
+                    ps.append(a)
+            return made
+        made = sweep("s0")
+        if rng.random() < 0.6:
+            # a later update: add a class and definitions; indirect pointers made before stay valid
+            parent = rng.randrange(n_c)
+            new_id = max(x for l in ids for x in l) + 16
+            lines.append("class 900 %d 0 %d %d" % (new_id, new_id, ids[parent][0]))
+            for m in reg.methods[:1]:
+                lines.append("def %d %d %s" % (m["key"], 9000 + m["key"], " ".join(str(ids[c][0]) for c in m["vp"])))
+                m["defs"].append((9000 + m["key"], list(m["vp"])))
+            lines.append("update")
+            sweep("s1", keep=made if pol == "indirect" else None)
+        name = "v%d-%s" % (i, pol)
+        scripts.append((name, lines))
+        pairs[name] = ps
+
+    def c09_oracle(bad, by_name, impl_out):
+        for name, lines in scripts:
+            out = verif.visible(impl_out.get(name, []))
+            seg = verif.segments_str(out)
+            for a in pairs.get(name, []):
+                x, y = seg.get("A" + a), seg.get("B" + a)
+                if x is None or y is None:
+                    continue
+                if x[:1] != y[:1]:
+                    return (name, lines, {"kind": "failing input: a call through virtual_ptr differs from the same call through a reference",
+                                          "through_reference": x[:1], "through_virtual_ptr": y[:1], "marker": a})
+        return None
+    impl_out, model_out, nbad = correspondence(ck, scripts, "C09: virtual_ptr construction routes, calls through them, updates in between", oracle=True, extra_oracle=c09_oracle)
+    f = c09_oracle(None, None, impl_out)
+    if f and not ck.violations:
+        f[2].update(property="C09", script=f[1])
+        ck.violation(verif.write_replay("C09", f[0], f[2]), True)
+    ck.coverage = proof_coverage(ck, ["C09"], {
+        "evaluations": len(scripts), "distinct_nontrivial": len({repr(l) for _, l in scripts}),
+        "rule": "registries with virtual_ptr parameters (shapes P, PV, VPNV, PP) under 8 policies; virtual_ptrs made from a base reference, from the exact "
+                "static type, with final, then copied or moved; every call is made twice, through references and through the virtual_ptrs, and must agree; "
+                "60% of scripts run a second update that adds a class and a definition, after which indirect-policy pointers made earlier are used again",
+        "construction_routes": routes, "call_pairs": sum(len(v) for v in pairs.values()),
+        "traces_validated_against_impl": len(scripts),
+        "samples": [{"name": n_, "script": ls[:40]} for n_, ls in scripts[:1]],
+    })
+    ck.assumptions = ["smart-pointer flavours (virtual_shared_ptr, make_virtual_shared) and conversions between virtual_ptr<Base>/virtual_ptr<Derived> are "
+                      "template glue over the same two fields; they are exercised by the H-prog programs, not by this check",
+                      "a virtual_ptr of a direct-vptr policy is used only until the next update (as the property states)"]
+
+
+def history_script(rng, pol, length, shapes=None):
+    """a load / unload history; returns lines and the list of (update marker, registry snapshot lines)"""
+    n_c = rng.randint(3, 8)
+    reg = gen.gen_registry(rng, n_classes=n_c, shapes=shapes, n_methods=rng.randint(1, 4))
+    ids = gen.make_ids(rng, n_c, pol)
+    desc = gen.descendants(reg.parents)
+    anc = gen.ancestors(reg.parents)
+    lines = ["policy " + pol]
+    live_c, live_m, live_d = {}, {}, {}
+    handle = 0
+    snaps = []
+
+    def class_line(c):
+        nonlocal handle
+        handle += 1
+        listed = [c] + sorted(anc[c]) if rng.random() < 0.5 else [c] + list(reg.parents[c])
+        return handle, "class %d %d %d %s" % (handle, ids[c][0], 1 if reg.abstract[c] else 0, " ".join(str(ids[b][0]) for b in listed))
+
+    def sweep():
+        out = []
+        for k, m in live_m.items():
+            doms = [desc[v] for v in m["vp"]]
+            for _ in range(5):
+                t = [rng.choice(d) for d in doms]
+                if all(c in live_c.values() for c in t):
+                    out.append("call %d %s" % (k, " ".join(str(ids[c][0]) for c in t)))
+        return out
+    for step_ in range(length):
+        r = rng.random()
+        if r < 0.30:
+            c = rng.randrange(n_c)
+            h, l = class_line(c)
+            live_c[h] = c
+            lines.append(l)
+        elif r < 0.40 and live_c:
+            h = rng.choice(sorted(live_c))
+            del live_c[h]
+            lines.append("unclass %d" % h)
+        elif r < 0.52:
+            cand = [m for m in reg.methods if m["key"] not in live_m]
+            if cand:
+                m = rng.choice(cand)
+                live_m[m["key"]] = m
+                live_d[m["key"]] = []
+                lines.append("method %d %s %s" % (m["key"], m["shape"], " ".join(str(ids[c][0]) for c in m["vp"])))
+        elif r < 0.57 and live_m:
+            k = rng.choice(sorted(live_m))
+            del live_m[k]
+            del live_d[k]
+            lines.append("unmethod %d" % k)
+        elif r < 0.75 and live_m:
+            k = rng.choice(sorted(live_m))
+            m = live_m[k]
+            if len(live_d[k]) < 7:
+                did = 1000 * (k + 1) + step_
+                vp = [rng.choice(desc[v]) for v in m["vp"]]
+                live_d[k].append(did)
+                lines.append("def %d %d %s" % (k, did, " ".join(str(ids[c][0]) for c in vp)))
+        elif r < 0.83 and any(live_d.values()):
+            k = rng.choice([k for k, v in live_d.items() if v])
+            did = rng.choice(live_d[k])
+            live_d[k].remove(did)
+            lines.append("undef %d %d" % (k, did))
+        else:
+            lines.append("update")
+            lines.append("dump")
+            lines += sweep()
+            if rng.random() < 0.3:
+                lines.append("update")     # again, with no change
+                lines.append("dump")
+    lines.append("update")
+    lines.append("dump")
+    lines += sweep()
+    return lines
+
+
+def fresh_equivalent(lines):
+    """the script a fresh process would run: the registrations alive before the last update, in catalog
+    order (a re-registration goes to the back), then the final update and calls"""
+    k = max(i for i, l in enumerate(lines) if l == "update")
+    head, tail = lines[:k], lines[k:]
+    classes, methods, defs = [], [], {}
+    for l in head:
+        t = l.split()
+        if t[0] == "class":
+            classes.append((t[1], l))
+        elif t[0] == "unclass":
+            classes = [c for c in classes if c[0] != t[1]]
+        elif t[0] == "method":
+            methods.append((t[1], l))
+            defs[t[1]] = []
+        elif t[0] == "unmethod":
+            methods = [m for m in methods if m[0] != t[1]]
+            defs.pop(t[1], None)
+        elif t[0] == "def" and t[1] in defs:
+            defs[t[1]].append((t[2], l))
+        elif t[0] == "undef" and t[1] in defs:
+            defs[t[1]] = [d for d in defs[t[1]] if d[0] != t[2]]
+    out = [lines[0]] + [l for _, l in classes] + [l for _, l in methods]
+    for mk, _ in methods:
+        out += [l for _, l in defs.get(mk, [])]
+    return out + [l for l in tail if l != "dump"]
+
+
+def check_C07(ck):
+    rng = random.Random(repr((ck.seed, "C07")))
+    scripts = load_corpus("C07")
+    n = tier_n(ck, 300, 5000)
+    fresh = {}
+    for i in range(n):
+        pol = rng.choice(["fast", "checked", "plain", "map", "indirect", "proj", "deferred", "deferred", "backward"])
+        lines = history_script(rng, pol, rng.randint(10, tier_n(ck, 40, 200)))
+        name = "h%d-%s" % (i, pol)
+        scripts.append((name, lines))
+        scripts.append((name + "-fresh", fresh_equivalent(lines)))
+        fresh[name] = name + "-fresh"
+
+    def c07_oracle(bad, by_name, impl_out):
+        for name, fname in fresh.items():
+            a = verif.visible(impl_out.get(name, []))
+            b = verif.visible(impl_out.get(fname, []))
+            # observables after the last update
+            def tail(o):
+                k = max([i for i, l in enumerate(o) if l.startswith("update")] or [0])
+                return [re.sub(r"(update raised unknown_class) \d+", r"\1", l) for l in o[k:] if l.startswith(("update", "ran", "raised", "!", "skipped"))]
+            died_a, died_b = any(l.startswith("!") for l in a), any(l.startswith("!") for l in b)
+            if (died_a and died_b) or ("!signal 6" in a and name.endswith("backward")):
+                continue     # the deprecated handler aborts on an update error (e.g. a class unloaded while still referenced)
+            if tail(a) != tail(b):
+                return (name, dict(scripts)[name], {"kind": "failing input: after this history the latest update does not behave like a fresh process with the same registrations",
+                                                     "after_history": tail(a)[:12], "fresh_process": tail(b)[:12], "fresh_script": dict(scripts)[fname]})
+            # an update repeated with no change alters nothing
+            for k in range(len(a) - 1):
+                pass
+        return None
+    impl_out, model_out, nbad = correspondence(ck, scripts, "C07: every update and call of a load/unload history", oracle=True, extra_oracle=c07_oracle)
+    f = c07_oracle(None, None, impl_out)
+    if f and not ck.violations:
+        f[2].update(property="C07", script=f[1])
+        ck.violation(verif.write_replay("C07", f[0], f[2]), True)
+    ops = {}
+    for _, ls in scripts:
+        for l in ls:
+            ops[l.split()[0]] = ops.get(l.split()[0], 0) + 1
+    ck.coverage = proof_coverage(ck, ["C07"], {
+        "evaluations": len(scripts), "distinct_nontrivial": len({repr(l) for n_, l in scripts if not n_.endswith("-fresh") and sum(1 for x in l if x == "update") >= 2}),
+        "rule": "random histories of class / method / definition registrations and removals interleaved with updates (some repeated with no change), under "
+                "9 policy flavours (eager, projected, deferred ids; hashed or not); after every update a dump and a sweep of calls are compared with the model, "
+                "and the observables after the last update are compared with a fresh process given only the surviving registrations; non-trivial = distinct "
+                "history with at least two updates",
+        "operations": ops, "traces_validated_against_impl": len(scripts),
+        "samples": [{"name": n_, "script": ls[:40]} for n_, ls in scripts[:1]],
+    })
+    ck.assumptions = ["catalogs are modelled as lists (tied to the intrusive list by C18)",
+                      "calls are issued only while the latest update has completed (an update that raised leaves the tables unspecified)"]
+
+
+def check_C10(ck):
+    rng = random.Random(repr((ck.seed, "C10")))
+    scripts, groups = load_corpus("C10"), []
+    n = tier_n(ck, 200, 4000)
+    flavours = ["checked", "proj", "deferred", "plain", "map", "fast"]
+    for i in range(n):
+        reg = gen.gen_registry(rng, n_classes=rng.randint(2, 8))
+        n_c = len(reg.parents)
+        names = []
+        seed_calls = rng.getrandbits(32)
+        updates = rng.randint(1, 3)
+        for pol in flavours:
+            r2 = random.Random(repr((ck.seed, i, pol)))
+            ids = gen.make_ids(r2, n_c, pol)
+            r3 = random.Random(seed_calls)   # the same calls in every flavour
+            lines, meta = gen.emit_script(r2, reg, pol, style="complete", ids=ids, shuffle=False, callnext=True, call_rng=r3)
+            if updates > 1:
+                k = lines.index("update")
+                lines = lines[:k] + ["update"] * (updates - 1) + lines[k:]
+            # flavour-independent rendering of the observables: map ids back to class indices
+            back = {}
+            for c, l in enumerate(ids):
+                for x in l:
+                    back[x] = c
+            nm = "f%d-%s" % (i, pol)
+            scripts.append((nm, lines))
+            names.append((nm, back))
+        groups.append(names)
+
+    def norm(lines, back):
+        out = []
+        for l in lines:
+            if l.startswith(("ran", "raised", "!")):
+                l = re.sub(r"types=\[(.*?)\]", lambda m: "types=[" + ",".join(str(back.get(int(x), x)) for x in m.group(1).split(",") if x) + "]", l)
+                out.append(l)
+        return out
+
+    def c10_oracle(bad, by_name, impl_out):
+        for names in groups:
+            obs = [norm(verif.visible(impl_out.get(nm, [])), back) for nm, back in names]
+            for (nm, _), o in zip(names[1:], obs[1:]):
+                if o != obs[0]:
+                    return (nm, dict(scripts)[nm], {"kind": "failing input: the same registry dispatches differently under two RTTI flavours",
+                                                    "flavour_a": names[0][0], "script_a": dict(scripts)[names[0][0]],
+                                                    "first_difference": [x for x in zip(obs[0], o) if x[0] != x[1]][:1]})
+        return None
+    impl_out, model_out, nbad = correspondence(ck, scripts, "C10: each flavour agrees with the model", oracle=True, extra_oracle=c10_oracle)
+    f = c10_oracle(None, None, impl_out)
+    if f and not ck.violations:
+        f[2].update(property="C10", script=f[1])
+        ck.violation(verif.write_replay("C10", f[0], f[2]), True)
+    ck.coverage = proof_coverage(ck, ["C10"], {
+        "evaluations": len(scripts), "distinct_nontrivial": len(groups),
+        "rule": "each abstract registry instantiated under six RTTI / lookup flavours (custom ids with identity projection hashed and checked, many-to-one "
+                "projection with alias ids, deferred ids, small integer ids unhashed, v-table pointer map, unchecked hash), 1-3 updates, all call tuples "
+                "with any alias id; observables must be equal across flavours after mapping ids to classes, and each flavour equal to the model",
+        "flavours": flavours, "traces_validated_against_impl": len(scripts),
+        "samples": [{"name": n_, "script": ls[:30]} for n_, ls in scripts[:1]],
+    })
+    ck.assumptions = ["std_rtti itself (typeid / type_index) is exercised by the H-prog programs; H-dyn uses integer ids carried by the object",
+                      "a hash search failure is an allowed, reported outcome (C05)"]
+
+
+def check_C14(ck):
+    rng = random.Random(repr((ck.seed, "C14")))
+    scripts, marks = load_corpus("C14"), {}
+    n = tier_n(ck, 200, 3000)
+    pol_sets = [["fastA", "fastB"], ["fastA", "fastB", "fastC"], ["checked", "checkedB"], ["fast", "checked"], ["fastB", "map"], ["indirect", "fastC"]]
+    for i in range(n):
+        pols = rng.choice(pol_sets)
+        n_c = rng.randint(2, 6)
+        ids = gen.make_ids(rng, n_c, "fast")        # the same class ids in every policy
+        regs = {p: gen.gen_registry(rng, n_classes=n_c, shapes=["V", "VV", "VNV", "P", "PV"], n_methods=rng.randint(1, 3)) for p in pols}
+        for p in pols:          # same inheritance graph everywhere (same classes), different methods
+            regs[p].parents = regs[pols[0]].parents
+            regs[p].abstract = regs[pols[0]].abstract
+        todo = {p: registry_lines(rng, regs[p], p, ids) for p in pols}
+        desc = gen.descendants(regs[pols[0]].parents)
+        lines = []
+        updated = set()
+        registered = set()
+        compiled_methods = set()
+        reg_classes, compiled_classes = set(), set()
+        k = 0
+
+        def observe(p, tag):
+            nonlocal k
+            out = ["policy " + p, "echo %s%d" % (tag, k), "dump"]
+            for m in regs[p].methods:
+                if (p, m["key"]) not in compiled_methods:
+                    continue
+                r2 = random.Random(repr((i, p, m["key"])))
+                for _ in range(6):
+                    t = [r2.choice(desc[v]) for v in m["vp"]]
+                    if all((p, ids[c][0]) in compiled_classes for c in t):
+                        out.append("call %d %s" % (m["key"], " ".join(str(ids[c][0]) for c in t)))
+            out.append("echo E%d" % k)
+            k += 1
+            return out
+        pending = []
+        while any(todo.values()):
+            p = rng.choice([q for q in pols if todo[q]])
+            others = [q for q in pols if q != p and q in updated]
+            watch = rng.choice(others) if others else None
+            if watch:
+                lines += observe(watch, "W")
+                pending.append((watch, k - 1))
+            lines.append("policy " + p)
+            for _ in range(rng.randint(1, 4)):
+                if todo[p]:
+                    l_ = todo[p].pop(0)
+                    lines.append(l_)
+                    if l_.startswith("method "):
+                        registered.add((p, int(l_.split()[1])))
+                    if l_.startswith("class "):
+                        reg_classes.add((p, int(l_.split()[2])))
+            if rng.random() < 0.5 or not todo[p]:
+                lines.append("update")
+                updated.add(p)
+                compiled_methods |= {x for x in registered if x[0] == p}
+                compiled_classes |= {x for x in reg_classes if x[0] == p}
+            if watch:
+                lines += observe(watch, "X")
+                pending[-1] = (watch, pending[-1][1], k - 1)
+        name = "i%d-%s" % (i, "+".join(pols))
+        scripts.append((name, lines))
+        marks[name] = [p_ for p_ in pending if len(p_) == 3]
+
+    def c14_oracle(bad, by_name, impl_out):
+        for name, lines in scripts:
+            out = verif.visible(impl_out.get(name, []))
+            for watch, a, b in marks.get(name, []):
+                def block(tag, k_):
+                    try:
+                        s_ = out.index("@%s%d" % (tag, k_))
+                        e_ = out.index("@E%d" % k_)
+                        return out[s_ + 1:e_]
+                    except ValueError:
+                        return None
+                x, y = block("W", a), block("X", b)
+                if x is not None and y is not None and x != y:
+                    d_ = [z for z in zip(x, y) if z[0] != z[1]][:1]
+                    return (name, lines, {"kind": "failing input: operations on one policy changed what another policy holds or how it dispatches",
+                                          "watched_policy": watch, "first_difference": d_})
+        return None
+    impl_out, model_out, nbad = correspondence(ck, scripts, "C14: interleaved registrations, updates and calls over several policies", oracle=False, extra_oracle=c14_oracle)
+    f = c14_oracle(None, None, impl_out)
+    if f and not ck.violations:
+        f[2].update(property="C14", script=f[1])
+        ck.violation(verif.write_replay("C14", f[0], f[2]), True)
+    ck.coverage = proof_coverage(ck, ["C14"], {
+        "evaluations": len(scripts), "distinct_nontrivial": len({repr(l) for _, l in scripts}),
+        "rule": "two or three policies (three obtained from one another by rebind, plus stock-like policies with other facets) registering the same class ids "
+                "with different methods; registrations and updates of one policy are interleaved with a full dump and a call sweep of another policy before "
+                "and after, which must be identical; everything is also compared with the model, whose policy states are independent by construction",
+        "policy_sets": pol_sets, "watch_points": sum(len(v) for v in marks.values()),
+        "traces_validated_against_impl": len(scripts),
+        "samples": [{"name": n_, "script": ls[:40]} for n_, ls in scripts[:1]],
+    })
+    ck.assumptions = ["that distinct policy keys give distinct template instantiations and hence distinct statics is a property of the C++ compiler; it is observed, not proved",
+                      "policies made by replace / remove keep the key and are documented to share static data; they are not claimed isolated"]
